@@ -153,6 +153,11 @@ pub fn show_cfg_error(reader: &MemReader, e: &CfgError) -> String {
 
 /// the pipeline of Manager::gen_full_cfg, stopping after `stage`
 fn pipeline(nodes: Vec<ParserNode>, stage: &str) -> Result<Cfg, Box<CfgError>> {
+    // the finished graph is the one the implementation's own driver builds (so that a change to the order of the
+    // passes in Manager::gen_full_cfg is seen); the intermediate stages replay the documented order step by step
+    if stage == "live" {
+        return Manager::gen_full_cfg(nodes);
+    }
     let handlers = {
         let mut cfg = Cfg::new(nodes.clone())?;
         if stage == "new1" { return Ok(cfg); }
